@@ -125,11 +125,13 @@ func VerifIntrospect() {
 		argDef, wantDefault = `30`, `30`
 	}
 	args := []interface{}{v15InputValue("a", argShape, argLeaf, argDef)}
+	// the enum-typed positions with a default are nullable (E = A) or non-null (E! = A)
+	enumShape := []string{"", "N"}[verifChoice("enumshape", 2)]
 
 	o := v15Type("OBJECT", "O")
 	o["fields"] = []interface{}{
 		v15Field("f", shape, "Int", args, deprecated, descr),
-		v15Field("e", "", "E", []interface{}{v15InputValue("order", "", "E", "A")}, false, ""),
+		v15Field("e", "", "E", []interface{}{v15InputValue("order", enumShape, "E", "A")}, false, ""),
 		v15Field("s", "", "S", []interface{}{}, false, ""),
 	}
 	o["interfaces"] = []interface{}{v15TypeRef("", "I"), v15TypeRef("", "I2")}
@@ -137,12 +139,12 @@ func VerifIntrospect() {
 	p["fields"] = []interface{}{v15Field("g", "N", "Int", []interface{}{}, false, "")}
 	p["interfaces"] = []interface{}{}
 	i := v15Type("INTERFACE", "I")
-	i["fields"] = []interface{}{v15Field("e", "", "E", []interface{}{v15InputValue("order", "", "E", "A")}, false, "")}
+	i["fields"] = []interface{}{v15Field("e", "", "E", []interface{}{v15InputValue("order", enumShape, "E", "A")}, false, "")}
 	i["possibleTypes"] = []interface{}{v15TypeRef("", "O")}
 	i["interfaces"] = []interface{}{}
 	// an interface that implements another interface
 	i2 := v15Type("INTERFACE", "I2")
-	i2["fields"] = []interface{}{v15Field("e", "", "E", []interface{}{v15InputValue("order", "", "E", "A")}, false, ""), v15Field("s", "", "S", []interface{}{}, false, "")}
+	i2["fields"] = []interface{}{v15Field("e", "", "E", []interface{}{v15InputValue("order", enumShape, "E", "A")}, false, ""), v15Field("s", "", "S", []interface{}{}, false, "")}
 	i2["interfaces"] = []interface{}{v15TypeRef("", "I")}
 	i2["possibleTypes"] = []interface{}{v15TypeRef("", "O")}
 	u := v15Type("UNION", "U")
@@ -158,7 +160,7 @@ func VerifIntrospect() {
 	if inDefault {
 		xdef = "7"
 	}
-	in["inputFields"] = []interface{}{v15InputValue("x", "", "Int", xdef), v15InputValue("y", "N", "String", `"d"`), v15InputValue("m", "", "E", "A")}
+	in["inputFields"] = []interface{}{v15InputValue("x", "", "Int", xdef), v15InputValue("y", "N", "String", `"d"`), v15InputValue("m", enumShape, "E", "A")}
 	q := v15Type("OBJECT", "Query")
 	q["fields"] = []interface{}{
 		v15Field("o", "", "O", []interface{}{v15InputValue("in", "", "IN", nil)}, false, ""),
